@@ -7,6 +7,7 @@ package server
 // at that moment (= what a kill -9 there leaves on disk), the operation is abandoned, and the copy is restarted.
 
 import (
+	"syscall"
 	"bytes"
 	"context"
 	"encoding/json"
@@ -68,6 +69,23 @@ func c12Gen(t *rapid.T) c12Case {
 		c.Prior = append(c.Prior, c12GenOp(t, "prior_"))
 	}
 	c.Op = c12GenOp(t, "op_")
+	if rapid.IntRange(0, 5).Draw(t, "update_scenario") == 0 {
+		// update of a model that was pulled before and has local relatives: pull X, maybe copy X to Y and/or create Z
+		// from X, the registry publishes a new version of X, and the interrupted operation is the second pull of X
+		x := rapid.SampledFrom([]int{0, 1, 2, 3, 4, 5, 6}).Draw(t, "upd_name")
+		c.Prior = append(c.Prior, c12Op{Kind: "pull", Name: x, Stream: true})
+		if rapid.IntRange(0, 3).Draw(t, "upd_copy") > 0 {
+			c.Prior = append(c.Prior, c12Op{Kind: "copy", Name: x, Name2: rapid.IntRange(0, len(c12Names)-1).Draw(t, "upd_copy_dst")})
+		}
+		if rapid.IntRange(0, 2).Draw(t, "upd_from") == 0 {
+			c.Prior = append(c.Prior, c12Op{Kind: "createfrom", Name: rapid.IntRange(0, len(c12Names)-1).Draw(t, "upd_from_dst"), Name2: x,
+				Sys: rapid.IntRange(0, 2).Draw(t, "upd_from_sys")})
+		}
+		if rapid.IntRange(0, 4).Draw(t, "upd_republish") > 0 {
+			c.Prior = append(c.Prior, c12Op{Kind: "republish", Name: x})
+		}
+		c.Op = c12Op{Kind: "pull", Name: x, Stream: rapid.Bool().Draw(t, "upd_stream")}
+	}
 	c.NoPrune = rapid.IntRange(0, 3).Draw(t, "noprune") == 0
 	c.CrashAt = rapid.SliceOfN(rapid.IntRange(0, 999), 1, 6).Draw(t, "crash_at")
 	return c
@@ -179,6 +197,13 @@ func (w *c12World) request(ctx context.Context, o c12Op) (int, []byte) {
 		method, path, body = "DELETE", "/api/delete", map[string]any{"model": name}
 	case "pull":
 		method, path, body = "POST", "/api/pull", map[string]any{"model": name, "stream": o.Stream}
+	case "republish":
+		// not a request to the server: the registry publishes a new version of the model under the same tag
+		// (same weights, new license and config)
+		if w.reg != nil {
+			c12Republish(w.reg, name)
+		}
+		return 200, nil
 	}
 	js, _ := json.Marshal(body)
 	req := httptest.NewRequest(method, path, bytes.NewReader(js)).WithContext(ctx)
@@ -218,6 +243,8 @@ func c12Snapshot(dir string) map[string]string {
 }
 
 func c12CopyDir(src, dst string) error {
+	// a disk image keeps hard links: two names of one file in src are two names of one file in dst
+	linked := map[uint64]string{}
 	return filepath.WalkDir(src, func(p string, d fs.DirEntry, err error) error {
 		if err != nil {
 			return nil // files may vanish while a writer is parked mid-operation (temp files): not part of the image then
@@ -225,6 +252,14 @@ func c12CopyDir(src, dst string) error {
 		rel, _ := filepath.Rel(src, p)
 		if d.IsDir() {
 			return os.MkdirAll(filepath.Join(dst, rel), 0o755)
+		}
+		if fi, serr := os.Lstat(p); serr == nil {
+			if st, ok := fi.Sys().(*syscall.Stat_t); ok && st.Nlink > 1 {
+				if first, ok := linked[st.Ino]; ok {
+					return os.Link(first, filepath.Join(dst, rel))
+				}
+				linked[st.Ino] = filepath.Join(dst, rel)
+			}
 		}
 		in, oerr := os.Open(p)
 		if oerr != nil {
@@ -374,6 +409,9 @@ func c12RunInner(c c12Case) (classes []string, nontrivial bool, err error) {
 	for _, o := range c.Prior {
 		w.request(context.Background(), o)
 		settle()
+		if o.Kind == "republish" {
+			cls["registry_republished_before_op"] = true
+		}
 	}
 	if serr := c12Startup(); serr != nil {
 		return nil, false, fmt.Errorf("startup on the prior state failed: %v", serr)
@@ -563,6 +601,30 @@ func c12Library(reg *frRegistry) {
 	}
 }
 
+// c12Republish replaces what the registry serves for name by a new version: same weights, new license, new config.
+func c12Republish(reg *frRegistry, name string) {
+	mp := ParseModelPath(name)
+	key := strings.ToLower(mp.GetNamespaceRepository() + ":" + mp.Tag)
+	reg.mu.Lock()
+	old := reg.models[key]
+	reg.mu.Unlock()
+	if old == nil {
+		return
+	}
+	rev := 2
+	for _, l := range old.Layers {
+		if l.MediaType == "application/vnd.ollama.image.license" && bytes.HasPrefix(l.Data, []byte("LICENSE rev ")) {
+			fmt.Sscanf(string(l.Data), "LICENSE rev %d", &rev)
+			rev++
+		}
+	}
+	lic := frBlob{Data: []byte(fmt.Sprintf("LICENSE rev %d", rev)), MediaType: "application/vnd.ollama.image.license"}
+	lic.Digest = frDigest(lic.Data)
+	cfg := []byte(fmt.Sprintf(`{"model_format":"gguf","model_family":"llama","model_families":["llama"],"model_type":"1","file_type":"F32","architecture":"amd64","os":"linux","rootfs":{"type":"layers","diff_ids":["rev%d"]}}`, rev))
+	m := &frModel{Layers: []frBlob{old.Layers[0], lic}, Config: &frBlob{Digest: frDigest(cfg), Data: cfg, MediaType: "application/vnd.docker.container.image.v1+json"}}
+	reg.publish(key, m)
+}
+
 func c12Classes(m map[string]bool) []string {
 	var out []string
 	for k := range m {
@@ -694,6 +756,9 @@ func c12SysGen(t *rapid.T) c12SysCase {
 		o.Kind = "pull"
 		o.Name = rapid.SampledFrom([]int{0, 1, 2, 4, 5, 6}).Draw(t, "op_pull_name")
 		c.Prior = append(c.Prior, c12Op{Kind: "pull", Name: o.Name, Stream: true})
+		if rapid.Bool().Draw(t, "op_pull_copied") { // the pulled model has a local copy under another name
+			c.Prior = append(c.Prior, c12Op{Kind: "copy", Name: o.Name, Name2: rapid.IntRange(0, len(c12Names)-1).Draw(t, "op_pull_copy_dst")})
+		}
 	case "create":
 		o.Name = anyName("op_name")
 	case "createfrom":
